@@ -903,7 +903,43 @@ func (h *tbHist) playHand1() bool {
 	}
 	var cbMu sync.Mutex
 	cbOps := []cbRebuy{}
-	if h.r.Intn(3) == 0 {
+	// … or the table is closed / released just then, or a moment earlier: after the hand's last answer was accepted and
+	// before it is settled. The hand is settled all the same and nothing opens afterwards.
+	stopped := "" // "close" / "release", where: "before-settlement" / "in-notification"
+	stoppedWhere := ""
+	stopPlanned := true
+	switch h.r.Intn(14) {
+	case 0, 1:
+		what := []string{"close", "release"}[h.r.Intn(2)]
+		h.synth.BeforeClosed = func() {
+			h.synth.BeforeClosed = nil
+			if what == "close" {
+				h.rig.te.CloseTable()
+			} else {
+				h.rig.te.ReleaseTable()
+			}
+			cbMu.Lock()
+			stopped, stoppedWhere = what, "before-settlement"
+			cbMu.Unlock()
+		}
+		defer func() { h.synth.BeforeClosed = nil }()
+	case 2, 3:
+		what := []string{"close", "release"}[h.r.Intn(2)]
+		h.rig.setOnSettled(func(t *pokertable.Table) {
+			if what == "close" {
+				h.rig.te.CloseTable()
+			} else {
+				h.rig.te.ReleaseTable()
+			}
+			cbMu.Lock()
+			stopped, stoppedWhere = what, "in-notification"
+			cbMu.Unlock()
+		})
+		defer h.rig.setOnSettled(nil)
+	default:
+		stopPlanned = false
+	}
+	if !stopPlanned && h.r.Intn(3) == 0 {
 		chips := int64(100 + h.r.Intn(500))
 		h.rig.setOnSettled(func(t *pokertable.Table) {
 			for _, p := range t.State.PlayerStates {
@@ -937,6 +973,14 @@ func (h *tbHist) playHand1() bool {
 	})
 	if !ok {
 		h.line("# hand did not settle within 3 s (status %s)", h.rig.liveStatus())
+		cbMu.Lock()
+		w, where := stopped, stoppedWhere
+		cbMu.Unlock()
+		if where == "before-settlement" {
+			// everybody had answered (the backend was asked for the closed state): the hand is over, its result must be booked
+			h.line("tb %s", w)
+			h.line("tb unsettled gc=%d after=%s", gc, w)
+		}
 		h.dead = true
 		h.st.Hung++
 		return false
@@ -950,6 +994,13 @@ func (h *tbHist) playHand1() bool {
 			}
 		}
 	}
+	cbMu.Lock()
+	if stoppedWhere == "before-settlement" {
+		h.line("tb %s", stopped)
+		h.rec(stopped, nil)
+		h.st.OpMix[stopped+"-between-the-last-answer-and-settlement"]++
+	}
+	cbMu.Unlock()
 	h.line("tb settle res=%s | ok", strings.Join(res, ","))
 	h.rec("settle", nil)
 	h.line("tb obs %s sm=? gate=? rel=?", tableObs(settled))
@@ -957,6 +1008,11 @@ func (h *tbHist) playHand1() bool {
 	waitFor(time.Second, func() bool { return h.rig.settledDone.Load() > settledPre })
 	h.rig.setOnSettled(nil)
 	cbMu.Lock()
+	if stoppedWhere == "in-notification" {
+		h.line("tb %s", stopped)
+		h.rec(stopped, nil)
+		h.st.OpMix[stopped+"-from-inside-the-settlement-notification"]++
+	}
 	for _, o := range cbOps {
 		h.line("tb reserve id=%d chips=%d seat=-1 ch=- | %s", o.id, o.chips, tbErrName(o.err))
 		h.rec("reserve", o.err)
